@@ -53,3 +53,21 @@ def c10_int_norm_conv_eval_differs(c, k):
     different normal forms or eval fails (int_power arity) although a proof term exists.  Both equations are checked for
     validity separately by the harness (kind conv-eval-invalid / conv-invalid), so only the *disagreement in form* is covered here."""
     return c.get('kind') == 'conv-eval:integer.int_norm_conv'
+
+
+@matcher('c19_substitution_branch_symbolic_bounds')
+def c19_substitution_branch_symbolic_bounds(c, k):
+    """Substitution / SubstitutionInverse with a map that is not injective on the interval (u = x^2, u = x^2 + 1, x = sqrt(u))
+    applied to an integral over the *symbolic* symmetric interval [-a,a]: the end points collapse to a^2 and the branch check
+    added by the fix (which is numeric) cannot be evaluated.  Numeric intervals and other maps are not covered."""
+    if c.get('kind') not in ('step-changes-value:Substitution', 'step-changes-value:SubstitutionInverse'):
+        return False
+    return c.get('rule') in ('Substitution(u,x^2)', 'Substitution(u,x^2+1)', 'SubstitutionInverse(u,sqrt(u))') and str(c.get('before', '')).startswith('INT x:[-a,a].')
+
+
+@matcher('c19_normalize_fraction_times_sum')
+def c19_normalize_fraction_times_sum(c, k):
+    """poly.normalize keeps a sum divided by a constant as c * (s + t) (division treats the sum as an atom) while a product
+    with a constant is distributed, so a second normalisation changes the form.  Only that shape, with both forms proved
+    equal in value, is covered."""
+    return c.get('kind') == 'normalize-not-idempotent' and c.get('shape') == 'fraction-times-sum'
